@@ -42,6 +42,8 @@ def all_fro(F):
         "matrix_norm('F')": u.matrix_norm(Aq, "F"), "quat_frobenius_norm.dense": u.quat_frobenius_norm(Aq),
         "quat_frobenius_norm.sparse": u.quat_frobenius_norm(sp), "matrix_norm(sparse,'fro')": u.matrix_norm(sp, "fro"),
         "normQ": u.normQ(Aq), "normQsparse.dense": u.normQsparse(*comps),
+        # a column given as four 1-D component vectors (how the Krylov solver holds its vectors)
+        **({"normQsparse.1d": u.normQsparse(*[c[:, 0].copy() for c in comps])} if F.shape[1] == 1 else {}),
         "normQsparse.sparse": u.normQsparse(*[sparse.csr_matrix(c) for c in comps]),
         "tensor_frobenius_norm": t.tensor_frobenius_norm(Aq.reshape(Aq.shape + (1,))),
         "sqrt(sum tensor_entrywise_abs^2)": float(np.sqrt(np.sum(t.tensor_entrywise_abs(Aq) ** 2))),
